@@ -11,6 +11,8 @@ use serde_json::json;
 
 #[derive(Default)]
 pub struct Mon {
+    /// harness model of the registry: vAMMs registered at deployment plus successful AddVamm minus successful RemoveVamm
+    reg_model: Option<std::collections::BTreeSet<String>>,
     dump0: Option<Vec<(Vec<u8>, Vec<u8>)>>,
     twin: Option<(bool, Obs)>,
     interesting: u64,
@@ -85,6 +87,34 @@ impl Monitor for Mon {
         None
     }
     fn after(&mut self, w: &World, s: &Step, out: &mut Outcome) -> Option<Violation> {
+        // registry model
+        let model = self.reg_model.get_or_insert_with(|| (0..w.vamms.len()).filter(|i| s.pre.v[*i].registered).map(|i| w.vamms[i].to_string()).collect());
+        if let Act::FundAdmin { msg, .. } = s.act {
+            if s.res.ok {
+                match msg {
+                    fund::ExecuteMsg::AddVamm { vamm } => {
+                        model.insert(vamm.clone());
+                    }
+                    fund::ExecuteMsg::RemoveVamm { vamm } => {
+                        model.remove(vamm);
+                    }
+                    _ => {}
+                }
+            }
+        }
+        let listed: std::collections::BTreeSet<String> = w
+            .query::<fund::AllVammResponse, _>(&w.fund, &fund::QueryMsg::GetAllVamm { limit: None })
+            .map(|r| r.vamm_list.into_iter().map(|a| a.to_string()).collect())
+            .unwrap_or_default();
+        if listed != *model {
+            return Some(
+                Violation::new(
+                    "registry_differs_from_add_remove_history",
+                    format!("after {} (ok={}): GetAllVamm = {:?} but the successful AddVamm / RemoveVamm calls so far leave {:?}", s.act.name(), s.res.ok, listed, model),
+                )
+                .with("act", s.act.name()),
+            );
+        }
         if let Some(v) = registry_invariants(w, s.post) {
             return Some(v.with("act", s.act.name()));
         }
@@ -210,7 +240,7 @@ pub fn prop() -> HistProp {
         max_ops: (40, 100),
         cases: (10_000, 300_000),
         make: || Box::new(Mon::default()),
-        rule: "deployments with 1-4 vAMMs (some initially closed / unregistered, a fourth beyond the registry capacity, one with foreign decimals) and histories mixing every engine operation with SetPause, SetOpen, AddVamm/RemoveVamm and ShutdownVamms. Paused (= after a successful SetPause{true} not yet reverted): Open/Close/Deposit/Withdraw must fail with the raw storage dump unchanged; Liquidate/PayFunding must have the same outcome and the same observable post-state as on an unpaused what-if twin of the same pre-state. Closed vAMM: no Open/Close/Liquidate/Withdraw/PayFunding succeeds; unregistered vAMM: no Open/Liquidate/Withdraw/PayFunding succeeds. After every step: GetAllVamm has no duplicates and <= 3 entries, IsVamm agrees with it for every vAMM ever created, GetAllVammStatus agrees with each State.open. After ShutdownVamms by the fund's owner (whether it returned Ok or Err) every registered vAMM is closed. Non-trivial: a blocked operation on a position that exists, or a Liquidate/PayFunding that succeeds while paused, or a shutdown with a non-empty proper subset of the registered vAMMs already closed. Distinct by digest of (cfg, ops).",
+        rule: "deployments with 1-4 vAMMs (some initially closed / unregistered, a fourth beyond the registry capacity, one with foreign decimals) and histories mixing every engine operation with SetPause, SetOpen, AddVamm/RemoveVamm and ShutdownVamms. Paused (= after a successful SetPause{true} not yet reverted): Open/Close/Deposit/Withdraw must fail with the raw storage dump unchanged; Liquidate/PayFunding must have the same outcome and the same observable post-state as on an unpaused what-if twin of the same pre-state. Closed vAMM: no Open/Close/Liquidate/Withdraw/PayFunding succeeds; unregistered vAMM: no Open/Liquidate/Withdraw/PayFunding succeeds. After every step: GetAllVamm equals the harness's model of the registry (deployment + successful AddVamm - successful RemoveVamm), has no duplicates and <= 3 entries, IsVamm agrees with it for every vAMM ever created, GetAllVammStatus agrees with each State.open. After ShutdownVamms by the fund's owner (whether it returned Ok or Err) every registered vAMM is closed. Non-trivial: a blocked operation on a position that exists, or a Liquidate/PayFunding that succeeds while paused, or a shutdown with a non-empty proper subset of the registered vAMMs already closed. Distinct by digest of (cfg, ops).",
         assumptions: &["'paused' is the harness's model of successful SetPause calls (the engine exposes no pause query)"],
         eval_counter: None,
     }
